@@ -21,12 +21,14 @@ def reset_ordinal():
         _ordinal[0] = 0
 
 
-def _maybe_yield(k):
-    """perturbs joblib thread schedules; never used as an oracle"""
+def _maybe_yield(k, salt=0):
+    """perturbs joblib thread schedules; never used as an oracle.  With k >= 2 the pause depends on how many harness fits happened before
+    in this process (`salt`), so that two fits of the same model under the same seed do not meet the same interleaving: code whose result
+    depends on the order in which its worker threads run shows up as two different models"""
     if k == 1:
         time.sleep(0)
     elif k >= 2:
-        time.sleep(0.0005 * (k - 1))
+        time.sleep(0.0004 * (k - 1) * (1 + (salt * 7) % 4))
 
 
 class RecordingRegressor(BaseEstimator, RegressorMixin):
@@ -40,12 +42,12 @@ class RecordingRegressor(BaseEstimator, RegressorMixin):
         self.random_state = random_state          # never used: a seeded base estimator is an ordinary thing to hand to a meta-estimator
 
     def fit(self, X, y, sample_weight=None):
-        _maybe_yield(self.yield_fit)
+        self.ordinal_ = _next_ordinal()
+        _maybe_yield(self.yield_fit, self.ordinal_)
         X = np.asarray(X)
         self.seen_X_ = np.array(X, dtype=np.float64, copy=True).reshape(X.shape[0], X.shape[1] if X.ndim > 1 else 1)
         self.seen_y_ = np.array(y, dtype=np.float64, copy=True)
         self.seen_w_ = None if sample_weight is None else np.array(sample_weight, dtype=np.float64, copy=True)
-        self.ordinal_ = _next_ordinal()
         w = np.ones(len(self.seen_y_)) if self.seen_w_ is None else self.seen_w_
         self.signature_ = float(np.sum(w * self.seen_y_.reshape(len(w), -1)[:, 0]) + 1024.0 * len(w)) if len(w) else -1.0
         self.n_features_in_ = self.seen_X_.shape[1]
@@ -68,12 +70,12 @@ class RecordingClassifier(BaseEstimator, ClassifierMixin):
         self.with_decision = with_decision
 
     def fit(self, X, y, sample_weight=None):
-        _maybe_yield(self.yield_fit)
+        self.ordinal_ = _next_ordinal()
+        _maybe_yield(self.yield_fit, self.ordinal_)
         X = np.asarray(X)
         self.seen_X_ = np.array(X, dtype=np.float64, copy=True).reshape(X.shape[0], X.shape[1] if X.ndim > 1 else 1)
         self.seen_y_ = np.array(y, copy=True)
         self.seen_w_ = None if sample_weight is None else np.array(sample_weight, dtype=np.float64, copy=True)
-        self.ordinal_ = _next_ordinal()
         self.classes_ = np.unique(self.seen_y_)
         w = np.ones(len(self.seen_y_)) if self.seen_w_ is None else self.seen_w_
         self.freq_ = np.array([w[self.seen_y_ == c].sum() for c in self.classes_], dtype=np.float64)
